@@ -36,7 +36,7 @@ fn par_map<T: Send, F: Fn(usize) -> T + Sync>(n: usize, f: F) -> Vec<T> {
     out.into_iter().map(|x| x.unwrap()).collect()
 }
 
-fn all_builtins_enabled(pi: &PublicInput) -> Option<PublicInput> {
+pub fn all_builtins_enabled(pi: &PublicInput) -> Option<PublicInput> {
     let d = pi.dynamic_params.as_ref()?;
     let mut v = serde_json::to_value(d).unwrap();
     for (k, x) in v.as_object_mut().unwrap().iter_mut() {
@@ -64,6 +64,18 @@ fn with_builtins(pi: &PublicInput, on: &[&str]) -> Option<PublicInput> {
     }
     let mut p2: PublicInput = serde_json::from_value(serde_json::to_value(pi).unwrap()).unwrap();
     p2.dynamic_params = Some(serde_json::from_value(v).unwrap());
+    Some(p2)
+}
+
+/// the builtin's row ratio set to the trace length (one instance)
+fn with_row_ratio(pi: &PublicInput, b: &str, trace_len: &Felt) -> Option<PublicInput> {
+    let d = pi.dynamic_params.as_ref()?;
+    let mut v = serde_json::to_value(d).unwrap();
+    let tl = vcommon::fu64(trace_len)?;
+    let key = v.as_object().unwrap().keys().find(|k| k.starts_with(b) && k.ends_with("row_ratio") && (b != "range_check" || !k.contains("96")))?.clone();
+    v[&key] = tl.into();
+    let mut p2: PublicInput = serde_json::from_value(serde_json::to_value(pi).unwrap()).unwrap();
+    p2.dynamic_params = Some(serde_json::from_value(v).ok()?);
     Some(p2)
 }
 
@@ -157,6 +169,25 @@ where
                 }
                 rep.count(&format!("dynamic.positions_of.{b}"), own);
                 rep.case(&format!("{lay}|builtin-alone|{b}"), true);
+                // the same builtin with exactly ONE instance (row ratio == trace length, a legal shape):
+                // the very same positions must be active
+                if let Some(single) = with_row_ratio(&only, b, &doms.trace_domain_size).filter(|sp| {
+                    // only where the evaluation itself accepts the shape (keccak, e.g., needs more rows)
+                    let ok = f(sp, &unit(nc, 0)).is_ok();
+                    if !ok {
+                        rep.inc(&format!("dynamic.single_instance_not_a_legal_shape.{b}"));
+                    }
+                    ok
+                }) {
+                    let act1: Vec<bool> = par_map(nc, |i| f(&single, &unit(nc, i)).map(|v| v != Felt::ZERO).unwrap_or(false));
+                    let lost_pos: Vec<usize> = (0..nc).filter(|i| act[*i] && !act1[*i]).collect();
+                    let lost = lost_pos.len();
+                    rep.case(&format!("{lay}|builtin-single-instance|{b}"), true);
+                    rep.inc("dynamic.single_instance_variants");
+                    if lost > 0 {
+                        rep.violation(&format!("C16|dynamic-builtin-single-instance|{lay}|{b}"), &format!("with exactly one instance of builtin {b} (row ratio == trace length) {lost} of its coefficient positions contribute nothing"), json!({"layout": lay, "builtin": b, "positions_lost": lost, "first_positions": lost_pos.iter().take(12).collect::<Vec<_>>()}));
+                    }
+                }
                 if own == 0 {
                     rep.violation(&format!("C16|dynamic-builtin-contributes-nothing|{lay}|{b}"), &format!("enabling builtin {b} alone activates no constraint coefficient position: its constraints are dropped (or gated by another builtin's flag)"), json!({"layout": lay, "builtin": b}));
                 }
